@@ -541,7 +541,7 @@ func (c *compiler) compile(tok *token) []instruction {
 		c.FuncName = tmp
 
 	case "=":
-		if targets := tok.Tokens[0].Tokens; len(targets) > 1 && tupleNeedsOrder(c, targets) {
+		if targets := tok.Tokens[0].Tokens; tupleNeedsOrder(c, targets) && (len(targets) > 1 || hasCall(targets[0])) { // also s[f()] = g(): f runs first
 			// a[i], b.f = x, y: Go evaluates the operands of the targets and the right-hand side first, then assigns
 			// left to right. Operands and values go through hidden slots so that this order holds.
 			const indexItem, indexKey = 0, 1
